@@ -224,5 +224,11 @@ def run_case(case, seed):
                     r.true(key + ':norm', abs(np.linalg.norm(v) - 1) <= 1e-7, 'dimension %d norm %r' % (dim, np.linalg.norm(v)))
                     if dim >= N:
                         r.close(key + ':exact-full-space', v, exact[1], 1e-7, 'dimension %d (state space %d)' % (dim, N))
+            if dim >= N and d >= 2:
+                # a rank cap that every state of this space fits in (the largest admissible TT rank) must not change the result
+                with r.op(key + ':call'):
+                    y = ode.krylov(op, x0t, dim, h, threshold=1e-14, max_rank=int(max(max_ranks(dims))), normalize=nz)
+                    if meta_problem(y) is None and list(y.row_dims) == list(dims):
+                        r.close(key + ':exact-full-space:admissible-rank-cap', vec(y), exact[1], 1e-7, 'dimension %d, max_rank %d' % (dim, max(max_ranks(dims))))
     r.true('inputs-unchanged', unchanged(op, sO) and unchanged(x0t, sX), 'operator or initial state modified')
     return r
